@@ -164,3 +164,430 @@ def translate(repo):
 
 def regen(ctx):
     c35.regen_file(ctx, GEN, translate)
+
+
+# ---------------------------------------------------------------------------- generators
+
+STRS = ["", "a", "ab", "m", "1s", "2l", "0d", "1sa", "-1i", "12", "s", "é", "中", "a\x00b", "\x00", "x y",
+        "foo", "-lm", "A", "1", "\U0001f600", "a" * 11, "1s1"]
+KEYS = ["libraries", "define_macros", "include_dirs", "extra_compile_args", "a", "b", "ab", "é", "x1", "sources"]
+
+
+def gen_value(rng, depth=0, allow_other=True):
+    r = rng.random()
+    if depth >= 3:
+        r *= 0.55
+    if r < 0.3:
+        if rng.random() < 0.03:
+            return {"s": "x\ud800"}
+        return {"s": rng.choice(STRS) if rng.random() < 0.7 else
+                "".join(rng.choice("ab1sld0-i\x00é") for _ in range(rng.randrange(0, 14)))}
+    if r < 0.45:
+        return {"i": rng.choice([0, 1, -1, 9, 10, 11, -12, 255, 2 ** 31, -2 ** 63, 2 ** 70 + 3, rng.randrange(-1000, 1000)])}
+    if r < 0.52:
+        return {"b": rng.random() < 0.5}
+    if r < 0.55 and allow_other:
+        return {"o": rng.randrange(5)}
+    if r < 0.75:
+        return {"l": [gen_value(rng, depth + 1, allow_other) for _ in range(rng.choice([0, 1, 2, 2, 3, 11]) if depth < 2 else rng.choice([0, 1, 2]))]}
+    if r < 0.87:
+        return {"t": [gen_value(rng, depth + 1, allow_other) for _ in range(rng.choice([0, 1, 2, 3]))]}
+    keys = rng.sample(sorted(set(KEYS + STRS[:8])), rng.choice([0, 1, 2, 3, 4]))
+    return {"d": [[k, gen_value(rng, depth + 1, allow_other)] for k in keys]}
+
+
+DECLS = ["int v%d;", "typedef int t%d;", "struct s%d { int x; };", "int f%d(int);", "// comment %d é\nint w%d;",
+         "enum e%d { E%d };", "/* c%d */ extern long g%d;"]
+
+
+def gen_sources(rng):
+    n = rng.choice([0, 1, 1, 2, 3])
+    out = []
+    ids = rng.sample(range(100), n)
+    for i in ids:
+        d = rng.choice(DECLS)
+        s = d.replace("%d", str(i))
+        if rng.random() < 0.3:
+            s = rng.choice(["", " ", "\n"]) + s + rng.choice(["", " ", "\n", "//"])
+        out.append(s)
+    return out
+
+
+def gen_input(rng, allow_other=False):
+    nk = rng.choice([0, 0, 1, 2, 3, 5])
+    keys = rng.sample(KEYS, nk)
+    return dict(sources=gen_sources(rng),
+                preamble=rng.choice(["", "#include <math.h>", "int x;", "a", "a\x00b", "é", "static int f(void){return 1;}"]),
+                kwds=[[k, gen_value(rng, 1, allow_other and rng.random() < 0.3)] for k in keys],
+                tag=rng.choice(["", "", "t", "foo"]), generic=rng.random() < 0.3)
+
+
+def resplit(rng, strs):
+    """another list of strings with the same concatenation"""
+    whole = "".join(strs)
+    if not whole:
+        return strs + [""]
+    cuts = sorted(rng.sample(range(len(whole) + 1), min(len(whole) + 1, rng.choice([0, 1, 2]))))
+    out, prev = [], 0
+    for c in cuts + [len(whole)]:
+        out.append(whole[prev:c])
+        prev = c
+    return out
+
+
+def gen_pair(rng):
+    """two inputs that are close to one another (and usually inequivalent)"""
+    a = gen_input(rng)
+    b = copy.deepcopy(a)
+    r = rng.random()
+    if r < 0.12:      # the recorded NUL family: one source with a NUL inside a line comment vs two sources
+        i = rng.randrange(100)
+        a["sources"] = ["int p%d; //\x00\nint q%d;" % (i, i)]
+        b["sources"] = ["int p%d; //" % i, "\nint q%d;" % i]
+    elif r < 0.25:    # sources joined / split
+        i = rng.randrange(100)
+        a["sources"] = ["int p%d;" % i, "int q%d;" % i]
+        b["sources"] = [rng.choice(["int p%d;int q%d;", "int p%d; int q%d;", "int p%d;\nint q%d;"]) % (i, i)]
+    elif r < 0.4:     # text moved between preamble and kwds / sources
+        b["preamble"] = a["preamble"] + rng.choice(["\x000d", "\x00", " ", "0d", "\x000d\x00int z;"])
+    elif r < 0.75 or not a["kwds"]:    # re-split strings inside a keyword value
+        strs = [rng.choice(STRS) for _ in range(rng.choice([1, 2, 3]))]
+        a["kwds"] = [["libraries", {"l": [{"s": s} for s in strs]}]]
+        alt = resplit(rng, strs)
+        form = rng.random()
+        if form < 0.6:
+            b["kwds"] = [["libraries", {"l": [{"s": s} for s in alt]}]]
+        elif form < 0.8:
+            b["kwds"] = [["libraries", {"t": [{"s": s} for s in strs]}]]      # equivalent: tuple for list
+        else:
+            b["kwds"] = [["libraries", {"s": "".join(strs)}]]
+    else:             # one value changed to a look-alike
+        k, v = a["kwds"][0]
+        alts = [{"s": "1"}, {"i": 1}, {"b": True}, {"l": []}, {"t": []}, {"d": []}, {"s": ""}, {"l": [{"s": ""}]},
+                {"i": 0}, {"b": False}, {"s": "0"}, {"l": [v]}, {"d": [["a", v]]}]
+        b["kwds"] = [[k, rng.choice(alts)]] + copy.deepcopy(a["kwds"][1:])
+        if rng.random() < 0.5:
+            a["kwds"] = [[k, rng.choice(alts)]] + a["kwds"][1:]
+    return dict(kind="pair", a=a, b=b)
+
+
+def generate(ctx, big=False):
+    rng = ctx.rng
+    cases = [dict(kind="prims", seed=rng.randrange(10 ** 9), n=150 if not big else 1500)]
+    cases += [dict(kind="flatten", value=gen_value(rng)) for _ in range(300 if not big else 3000)]
+    for _ in range(60 if not big else 500):
+        inp = gen_input(rng, allow_other=True)
+        cases.append(dict(kind="name", input=inp, order_seed=rng.randrange(10 ** 9)))
+    cases += [gen_pair(rng) for _ in range(150 if not big else 1500)]
+    return cases
+
+
+# ---------------------------------------------------------------------------- oracle
+
+def canon(v):
+    """what flatten is allowed to see (recorded reading): tuple = list, bool = int, dict order irrelevant"""
+    (k, x), = v.items()
+    if k == "s":
+        return ("s", x)
+    if k in ("i", "b"):
+        return ("i", int(x))
+    if k in ("l", "t"):
+        return ("l", tuple(canon(e) for e in x))
+    if k == "d":
+        return ("d", tuple(sorted((key, canon(e)) for key, e in x)))
+    return ("o", x)
+
+
+def canon_input(i):
+    return (tuple(i["sources"]), i["preamble"], canon({"d": i["kwds"]}))
+
+
+def has_other(v):
+    (k, x), = v.items()
+    if k == "o":
+        return True
+    if k in ("l", "t"):
+        return any(has_other(e) for e in x)
+    if k == "d":
+        return any(has_other(e) for _, e in x)
+    return False
+
+
+def finding_key(case):
+    """known-finding class of a colliding pair: the two inputs agree on everything but the cdef sources,
+    and a source contains a NUL character"""
+    a, b = case["a"], case["b"]
+    if a["preamble"] == b["preamble"] and canon({"d": a["kwds"]}) == canon({"d": b["kwds"]}) \
+            and any("\x00" in s for s in a["sources"] + b["sources"]):
+        return "nul_in_source"
+    return None
+
+
+# ---------------------------------------------------------------------------- Coq literals
+
+def cval(v):
+    (k, x), = v.items()
+    if k == "s":
+        return "(PStr %s)" % cstr(x)
+    if k == "i":
+        return "(PInt %s)" % cz(x)
+    if k == "b":
+        return "(PBool %s)" % cbool(x)
+    if k == "l":
+        return "(PList %s)" % clist([cval(e) for e in x])
+    if k == "t":
+        return "(PTuple %s)" % clist([cval(e) for e in x])
+    if k == "d":
+        return "(PDict %s)" % ckvs(x)
+    return "(POther %s)" % cn(x)
+
+
+def ckvs(kvs):
+    return "(%s : list (str * pyval))" % clist([cpair(cstr(k), cval(e)) for k, e in kvs])
+
+
+PRELUDE = """
+From Cffi Require Import C35.PyStr C35.Model C24.Utf8 C32.PyStr C32.Model C32.Gen.
+Definition exc_eqb (a b : exc) := match a, b with TypeError, TypeError | KeyError, KeyError | ValueError, ValueError
+  | PkgConfigError, PkgConfigError | OutOfFuel, OutOfFuel | OtherError, OtherError => true | _, _ => false end.
+Definition res_eqb {A} (e : A -> A -> bool) (x y : res A) := match x, y with Ok a, Ok b => e a b | Err a, Err b => exc_eqb a b | _, _ => false end.
+Definition crc_tab (ev : list N) (c1 c2 : Z) (b : list N) : Z := if list_eqb N.eqb b ev then c1 else c2.
+Definition key_model (fuel : nat) (version vvm preamble : str) (kwds : list (str * pyval)) (sources : list str) : res str :=
+  bind (flatten fuel (PDict kwds)) (fun fk => Ok (verify_key version vvm preamble fk sources)).
+Definition name_model (fuel : nat) (version vvm preamble : str) (kwds : list (str * pyval)) (sources : list str)
+    (tag ck : str) (ev : list N) (c1 c2 : Z) : res str :=
+  bind (flatten fuel (PDict kwds)) (fun fk =>
+  module_name (crc_tab ev c1 c2) tag ck (verify_key version vvm preamble fk sources)).
+Definition hexnames (z : Z) := (py_rstrip (py_lstrip (py_hex z) [48;120]%N) [76]%N, py_rstrip (py_lstrip (py_hex z) [48]%N) [76]%N).
+Definition halves (l : list N) := (py_slice_step2 0 l, py_slice_step2 1 l).
+"""
+FUEL = 12
+EXCS = ("TypeError", "KeyError", "ValueError")
+
+
+def cres(r, ok):
+    if "exc" in r:
+        return "(Err %s)" % (r["exc"] if r["exc"] in EXCS else "OtherError")
+    return "(Ok %s)" % ok(r)
+
+
+# ---------------------------------------------------------------------------- evaluation
+
+def prim_groups(ctx, c):
+    import random
+    rng = random.Random(c["seed"])
+    n = c["n"]
+    ints = [0, 1, -1, 9, 10, 99, 100, -100, 2 ** 31, 2 ** 32 - 1, 2 ** 64, -2 ** 63, 10 ** 30] + \
+           [rng.randrange(-10 ** rng.randrange(1, 25), 10 ** rng.randrange(1, 25)) for _ in range(n)]
+    u32 = [0, 1, 15, 16, 255, 256, 0xfffffff, 0x10000000, 0xffffffff, 0xabcdef, 0x0a0b0c] + \
+          [rng.randrange(2 ** rng.randrange(1, 33)) for _ in range(n)]
+    strs = [[rng.choice(STRS + ["b", "B", "aa", "a\x00", "\U0010ffff", "é", "ё"]) for _ in range(rng.randrange(0, 7))]
+            for _ in range(n)]
+    texts = ["".join(chr(rng.choice([0, 65, 0x7f, 0x80, 0x7ff, 0x800, 0xd7ff, 0xd800, 0xdfff, 0xe000, 0xffff, 0x10000,
+                                     0x10ffff, rng.randrange(0x110000)])) for _ in range(rng.randrange(0, 6)))
+             for _ in range(n)]
+    blobs = [bytes(rng.choice([0, 0x41, 0x7f, 0x80, 0xbf, 0xc0, 0xc1, 0xc2, 0xdf, 0xe0, 0xed, 0xef, 0xf0, 0xf4, 0xf5, 0xff,
+                               0x9f, 0xa0, 0x8f, 0x90, rng.randrange(256)]) for _ in range(rng.randrange(0, 6)))
+             for _ in range(n)] + [t.encode("utf-8", "surrogatepass") for t in texts[:n // 2]]
+
+    def enc(t):
+        try:
+            return "(Some %s)" % cbytes(t.encode("utf-8"))
+        except UnicodeEncodeError:
+            return "None"
+
+    def dec(b):
+        try:
+            return "(Some %s)" % cstr(b.decode("utf-8"))
+        except UnicodeDecodeError:
+            return "None"
+    ctx.count(len(ints) + len(u32) + 2 * len(strs) + len(texts) + len(blobs))
+    own = [c]
+    return [
+        ("py_dec", "py_dec", "list_eqb N.eqb", [(cz(z), cstr("%d" % z)) for z in ints], own * len(ints), "C32.PyStr.py_dec vs '%d' %"),
+        ("py_hex", "hexnames", "pair_eqb (list_eqb N.eqb) (list_eqb N.eqb)",
+         [(cz(z), cpair(cstr(hex(z).lstrip("0x").rstrip("L")), cstr(hex(z).lstrip("0").rstrip("L")))) for z in u32],
+         own * len(u32), "C32.PyStr.py_hex/py_lstrip/py_rstrip vs CPython"),
+        ("sorted", "py_sorted_str", "list_eqb (list_eqb N.eqb)",
+         [(clist([cstr(s) for s in l]), clist([cstr(s) for s in sorted(l)])) for l in strs], own * len(strs),
+         "C32.PyStr.py_sorted_str vs sorted()"),
+        ("join", "py_join [0]%N", "list_eqb N.eqb",
+         [(clist([cstr(s) for s in l]), cstr("\x00".join(l))) for l in strs], own * len(strs), "C32.PyStr.py_join vs str.join"),
+        ("halves", "halves", "pair_eqb (list_eqb N.eqb) (list_eqb N.eqb)",
+         [(cbytes(b), cpair(cbytes(b[0::2]), cbytes(b[1::2]))) for b in blobs], own * len(blobs), "py_slice_step2 vs x[k::2]"),
+        ("utf8_encode", "utf8_encode", "opt_eqb (list_eqb N.eqb)", [(cstr(t), enc(t)) for t in texts], own * len(texts),
+         "C24.Utf8.utf8_encode vs str.encode('utf-8')"),
+        ("utf8_decode", "utf8_decode", "opt_eqb (list_eqb N.eqb)", [(cbytes(b), dec(b)) for b in blobs], own * len(blobs),
+         "C24.Utf8.utf8_decode vs bytes.decode('utf-8')"),
+    ]
+
+
+def orders_for(case, proc):
+    import random
+    r = random.Random(case["order_seed"] * 7 + proc)
+    n = len(case["input"]["kwds"])
+    out = []
+    for _ in range(2):
+        p = list(range(n))
+        r.shuffle(p)
+        out.append(p)
+    if proc == 0:
+        out[0] = list(range(n))
+    return out
+
+
+def describe(inp):
+    return "cdef sources %r, source %r, keywords %s" % (inp["sources"], inp["preamble"], json.dumps(inp["kwds"]))
+
+
+def evaluate(ctx, cases):
+    groups = []
+    for c in cases:
+        if c["kind"] == "prims":
+            groups += prim_groups(ctx, c)
+    s = ctx.scratch()
+    fl = [c for c in cases if c["kind"] == "flatten"]
+    names = [c for c in cases if c["kind"] == "name"]
+    pairs = [c for c in cases if c["kind"] == "pair"]
+    version = vvm = None
+    # flatten + pairs: one process
+    if fl or pairs:
+        out, p = s.run_worker("c32_worker.py", dict(cases=fl + pairs), timeout=1200)
+        if out is None:
+            ctx.violation((fl + pairs)[0], "worker failed: " + (p.stderr[-1500:] or p.stdout[-500:]))
+            return
+        version, vvm = out["version"], out["vvm"]
+        coq = []
+        for c, r in zip(fl, out["results"][:len(fl)]):
+            ctx.count()
+            ctx.hist("flatten_outcome", r.get("exc", "ok"))
+            coq.append(("(flatten %d %s)" % (FUEL, cval(c["value"])), cres(r, lambda r: cbytes(r["text"]))))
+            # property on the implementation: unsupported objects are refused, everything else is encoded
+            if ("exc" in r) != has_other(c["value"]) and not (r.get("exc") == "TypeError" and has_other(c["value"])):
+                ctx.violation(c, "flatten(%s) -> %s" % (json.dumps(c["value"]), r.get("exc", "a string")))
+            if "text" in r and list(c["value"])[0] in "ltd":
+                ctx.nontrivial(("flatten", c["value"]))
+        groups.append(("flatten", "fun x => x", "res_eqb (list_eqb N.eqb)", coq, fl,
+                       "C32.Gen.flatten vs cffi.ffiplatform.flatten"))
+        kcoq, kown = [], []
+        for c, r in zip(pairs, out["results"][len(fl):]):
+            ctx.count()
+            a, b = r["a"], r["b"]
+            same_input = canon_input(c["a"]) == canon_input(c["b"])
+            ctx.hist("pair", "equivalent" if same_input else "distinct")
+            if "key" in a and "key" in b:
+                if not same_input and a["key"] == b["key"]:
+                    ctx.violation(c, "two different inputs give the same verify() key (and module name %s): [%s] and [%s]"
+                                  % (a["name"], describe(c["a"]), describe(c["b"])), key=finding_key(c))
+                elif same_input and a["key"] != b["key"]:
+                    ctx.violation(c, "equivalent inputs (tuple/list, True/1) give different keys: [%s] and [%s]"
+                                  % (describe(c["a"]), describe(c["b"])))
+                else:
+                    ctx.nontrivial(("pair", canon_input(c["a"]), canon_input(c["b"])))
+            for side, rr in (("a", a), ("b", b)):
+                inp = c[side]
+                if rr.get("cdefsources", inp["sources"]) != inp["sources"]:
+                    ctx.mismatch(c, "ffi._cdefsources is not the list of cdef() arguments", "harness assumption")
+                lit = "(key_model %d %s %s %s %s %s)" % (FUEL, cstr(version), cstr(vvm), cstr(inp["preamble"]),
+                                                       ckvs(inp["kwds"]), clist([cstr(x) for x in inp["sources"]]))
+                if "key" in rr:
+                    try:
+                        exp = "(Ok %s)" % cstr(bytes.fromhex(rr["key"]).decode("utf-8"))
+                    except UnicodeDecodeError:
+                        ctx.mismatch(c, "hashed key is not UTF-8", "harness assumption")
+                        continue
+                elif rr.get("exc") == "ValueError":
+                    continue        # UnicodeEncodeError when encoding: covered by the name group
+                else:
+                    exp = cres(rr, None)
+                kcoq.append((lit, exp))
+                kown.append(c)
+        groups.append(("verify_key", "fun x => x", "res_eqb (list_eqb N.eqb)", kcoq, kown,
+                       "C32.Gen.verify_key/flatten vs the bytes passed to crc32 by Verifier.__init__"))
+    # names: three processes with different hash seeds and keyword orders
+    if names:
+        per_proc = []
+        for proc, seed in enumerate(("0", "1", "4242")):
+            payload = dict(cases=[dict(kind="name", input=c["input"], orders=orders_for(c, proc)) for c in names])
+            out, p = s.run_worker("c32_worker.py", payload, timeout=1200, hashseed=seed)
+            if out is None:
+                ctx.violation(names[0], "worker failed: " + (p.stderr[-1500:] or p.stdout[-500:]))
+                return
+            version, vvm = out["version"], out["vvm"]
+            per_proc.append(out["results"])
+        ncoq = []
+        for i, c in enumerate(names):
+            runs = [r for proc in per_proc for r in proc[i]["runs"]]
+            ctx.count(len(runs))
+            obs = {json.dumps({k: r.get(k) for k in ("name", "key", "exc")}, sort_keys=True) for r in runs}
+            ctx.hist("name_outcome", runs[0].get("exc", "ok"))
+            if len(obs) != 1:
+                ctx.violation(c, "verify() module name depends on the process / hash seed / keyword order for [%s]: %s"
+                              % (describe(c["input"]), sorted(obs)[:3]))
+            elif "name" in runs[0] and len(c["input"]["kwds"]) >= 2:
+                ctx.nontrivial(("name", canon_input(c["input"]), c["input"]["tag"], c["input"]["generic"]))
+            r = runs[0]
+            inp = c["input"]
+            if "key" in r:
+                kb = bytes.fromhex(r["key"])
+                extra = "%s %s %s %s" % (cstr(r["class_key"]), cbytes(kb[0::2]), cz(r["crc"][0]), cz(r["crc"][1]))
+                if r["crc"] != [zlib.crc32(kb[0::2]) & 0xffffffff, zlib.crc32(kb[1::2]) & 0xffffffff]:
+                    ctx.mismatch(c, "captured CRCs are not those of the even/odd bytes", "harness assumption")
+            else:
+                extra = "%s %s %s %s" % (cstr("x"), cbytes(b""), cz(0), cz(0))
+            lit = "(name_model %d %s %s %s %s %s %s %s)" % (
+                FUEL, cstr(version), cstr(vvm), cstr(inp["preamble"]), ckvs(inp["kwds"]),
+                clist([cstr(x) for x in inp["sources"]]), cstr(inp["tag"]), extra)
+            ncoq.append((lit, cres(r, lambda r: cstr(r["name"]))))
+        groups.append(("module_name", "fun x => x", "res_eqb (list_eqb N.eqb)", ncoq, names,
+                       "C32.Gen.module_name vs Verifier(...).get_module_name()"))
+    groups = [g for g in groups if g[3]]
+    res = c35.multi_mismatches([g[:4] for g in groups], PRELUDE)
+    for name, fexpr, eqb, cs, own, corr in groups:
+        bad, outs, err = res[name]
+        if err:
+            ctx.obligation_broken("C32 model evaluation (%s)" % name, err)
+        for i in bad:
+            ctx.mismatch(dict(own[i], model_input=cs[i][0][:3000]),
+                         "model %s = %s; implementation: %s" % (name, outs.get(i), cs[i][1][:600]), corr)
+    for k in (fl[:1], names[:1], pairs[:1]):
+        for c in k:
+            ctx.sample(c)
+    ctx.violations.sort(key=lambda v: (v[2] is not None, len(json.dumps(v[0], default=str))))
+    ctx.mismatches.sort(key=lambda v: len(json.dumps(v[0], default=str)))
+
+
+def run(ctx):
+    ctx.cov["rule"] = (
+        "prims: py_dec / hex+strip / sorted / join / step slices / UTF-8 codec of the model vs CPython on random and "
+        "boundary inputs; flatten: random nested values (str incl. digit/tag look-alikes, NUL, non-ASCII; ints incl. "
+        "big/negative; bool; list; tuple; dict; unsupported objects) through the real ffiplatform.flatten vs the "
+        "regenerated model; name: random (cdef list, source, kwargs, tag, engine) through Verifier(...) in three "
+        "processes with PYTHONHASHSEED 0/1/4242, two keyword orders each and a repeated call — name and hashed bytes "
+        "must coincide — and vs the model with the observed CRCs; pair: two close inputs (strings re-split across list "
+        "items, list/tuple, True/1, text moved between source, kwargs and cdefs, sources joined/split, NUL in a comment) — "
+        "hashed keys must differ iff the inputs differ (up to the recorded reading). Non-trivial = container value / "
+        ">= 2 keywords / any pair; distinct by canonical input.")
+    ctx.assumptions += [
+        "translator tools/props/c35_trans.py + shape-matched driver for Verifier.__init__; primitives C32/PyStr.v, "
+        "C35/PyStr.v, C24/Utf8.v validated against CPython on every run",
+        "binascii.crc32 is an uninterpreted function (Section variable); observed values are supplied to the model",
+        "dict keys of keyword values are str (the model's universe); reading: injectivity up to list=tuple, True=1, "
+        "dict order, for NUL-free source/cdefs (DESIGN Appendix B)",
+        "Python version text and __version_verifier_modules__ are inputs of the key"]
+    evaluate(ctx, generate(ctx))
+    if not [v for v in ctx.violations if v[2] is None] and (ctx.thorough or ctx.tier_search == "thorough" or ctx.mismatches):
+        evaluate(ctx, generate(ctx, big=True))
+
+
+MANIFEST = dict(
+    technique="Coq proof about a model regenerated from ffiplatform.py / verifier.py by a fail-closed Python-AST "
+              "translator on every run + differential correspondence across processes, hash seeds and keyword orders",
+    text="Proof (all values, any nesting): the regenerated flatten equals the specified tagged, length-prefixed encoding; "
+         "it is a prefix code, hence injective up to list=tuple / True=1 / dict order; dict order never matters (sorted "
+         "keys); the hashed key (version, verifier version, source, flattened kwargs, cdef sources joined by NUL) is "
+         "injective for NUL-free source and cdefs, and its UTF-8 bytes too; refuted with a NUL in a cdef source "
+         "(witness replayed on the real code: known finding); the name is a function of tag, engine and the two CRCs.",
+    note="Trusted: Coq kernel; translator + primitive libraries (validated against CPython each run); CRC32 "
+         "uninterpreted. Known finding nul_in_source.",
+    design_ref="DESIGN.md §4 C32")
